@@ -104,7 +104,13 @@ impl Walrus {
                     info.cur_block_idx = idx;
                     info.cur_block_offset = tail_off.min(used);
                 } else {
-                    info.cur_block_idx = 0;
+                    // The tail block itself was not recovered (nothing had been written into
+                    // it): blocks handed out before it are consumed, later ones are not
+                    info.cur_block_idx = info
+                        .chain
+                        .iter()
+                        .position(|b| b.id > tail_block_id)
+                        .unwrap_or(info.chain.len());
                     info.cur_block_offset = 0;
                 }
             }
@@ -697,6 +703,15 @@ impl Walrus {
                     let used = info.chain[idx].used;
                     info.cur_block_idx = idx;
                     info.cur_block_offset = tail_off.min(used);
+                } else {
+                    // As in read_next: the tail block itself was not recovered, so blocks handed
+                    // out before it are consumed and later ones (appended since) are not
+                    info.cur_block_idx = info
+                        .chain
+                        .iter()
+                        .position(|b| b.id > tail_bid)
+                        .unwrap_or(info.chain.len());
+                    info.cur_block_offset = 0;
                 }
             }
 
